@@ -950,8 +950,16 @@ package pfcp
 //@   flag perreturn
 //@   serves C01 C04 C05 C08 C11 C12 C07
 //@   loop range(usars):
-//@     modifies sess.URRIDs[_], whole(sess.URRIDs[_].SEQN), rsp.UsageReport, r.*
+//@     modifies sess.URRIDs[_], whole(sess.URRIDs[_].SEQN), rsp.UsageReport, r.*, SKIPPED
 //@     invariant [inv]   urrsOK(sess) && rsp != nil && nodeInv(s.lnode)
+//@     invariant [complete] 0 <= SKIPPED && len(rsp.UsageReport) + SKIPPED == idx
+//@   after call NewSessionDeletionResponse#2:
+//@     assume [A-RSPINIT] len(ret0.UsageReport) == 0
+//@     set SKIPPED := 0
+//@   at call Warnf:
+//@     assert [unknown] !(r.URRID in sess.URRIDs)
+//@   after call Warnf:
+//@     set SKIPPED := SKIPPED + 1
 //@   at call Sess:
 //@     unfold nodeInv(s.lnode)
 //@   after call Sess:
@@ -1151,8 +1159,9 @@ package pfcp
 //@     invariant [ok]   nodeInv(s.lnode) && sessOK(sess)
 //@     invariant [isol] forall k RuleKey :: k.seid != sess.LocalID ==> ((k in DP) == (k in old(DP))) && ((k in CREATED) == (k in old(CREATED)))
 //@   loop range(usars):
-//@     modifies sess.URRIDs[_], whole(sess.URRIDs[_].SEQN), rsp.UsageReport, r.*
+//@     modifies sess.URRIDs[_], whole(sess.URRIDs[_].SEQN), rsp.UsageReport, r.*, SKIPPED
 //@     invariant [ok]   nodeInv(s.lnode) && sessOK(sess) && rsp != nil
+//@     invariant [complete] 0 <= SKIPPED && len(rsp.UsageReport) + SKIPPED == idx
 //@     invariant [isol] forall k RuleKey :: k.seid != sess.LocalID ==> ((k in DP) == (k in old(DP))) && ((k in CREATED) == (k in old(CREATED)))
 //@   at call Sess:
 //@     unfold nodeInv(s.lnode)
@@ -1167,6 +1176,25 @@ package pfcp
 //@   at call NewSessionModificationResponse#2:
 //@     assert [seid]    arg2 == sess.RemoteID && arg3 == req.Header.SequenceNumber
 //@     assert [cause]   len(arg5) == 1 && arg5[0] == ie.NewCause(ie.CauseRequestAccepted)
+//@   at call append#1:
+//@     assert [collect] arg0 == usars && arg1 == rs
+//@   at call append#2:
+//@     assert [collect] arg0 == usars && arg1 == rs
+//@   at call append#3:
+//@     assert [collect] arg0 == usars && arg1 == rs
+//@   at call append#4:
+//@     assert [collect] arg0 == usars && arg1 == rs
+//@   at call append#5:
+//@     assert [collect] arg0 == usars && arg1 == rs
+//@   at call append#6:
+//@     assert [keep]    arg0 == rsp.UsageReport && len(arg1) == 1
+//@   after call NewSessionModificationResponse#2:
+//@     assume [A-RSPINIT] len(ret0.UsageReport) == 0
+//@     set SKIPPED := 0
+//@   at call Warnf:
+//@     assert [unknown] !(r.URRID in sess.URRIDs)
+//@   after call Warnf:
+//@     set SKIPPED := SKIPPED + 1
 //@   at call sendRspTo:
 //@     assert [to] arg1 == addr && arg0 == iface(rsp)
 //@   at call URRSeq:
@@ -1187,6 +1215,9 @@ package pfcp
 // A-SEQWINDOW (assumed): no transaction with the sequence number about to be used is still outstanding towards
 // the same peer (2^24 requests would have to be in flight within one retention window).
 
+// Completeness (C10): every report of the batch is either appended to the request (one Usage Report IE each, the earlier
+// ones kept) or skipped because its URR is unknown to the session - SKIPPED counts the latter, [complete] adds up.
+//@ ghost SKIPPED int
 //@ func (s *PfcpServer) serveUSAReport(addr net.Addr, lSeid uint64, usars []report.USAReport) (err error)
 //@   requires s != nil && srvInv(s) && addr != nil
 //@   ensures [inv]   srvInv(s)
@@ -1198,14 +1229,24 @@ package pfcp
 //@   flag perreturn
 //@   serves C10 C11 C09 C05 C07
 //@   loop range(usars):
-//@     modifies whole(sess.URRIDs[_].SEQN), req.UsageReport, r.*
+//@     modifies whole(sess.URRIDs[_].SEQN), req.UsageReport, r.*, SKIPPED
 //@     invariant [req] req != nil && req.Header != nil && req.Header.Type == 56 && req.Header.SEID == sess.RemoteID
+//@     invariant [complete] 0 <= SKIPPED && len(req.UsageReport) + SKIPPED == idx
 //@   at call Sess:
 //@     unfold nodeInv(s.lnode)
 //@   after call Sess:
 //@     unfold allSessOK(s.lnode)
 //@   at call NewSessionReportRequest:
 //@     assert [seid] arg2 == sess.RemoteID
+//@   after call NewSessionReportRequest:
+//@     assume [A-SRRINIT] len(ret0.UsageReport) == 0
+//@     set SKIPPED := 0
+//@   at call Warnf:
+//@     assert [unknown] !(r.URRID in sess.URRIDs)
+//@   after call Warnf:
+//@     set SKIPPED := SKIPPED + 1
+//@   at call append:
+//@     assert [keep]  arg0 == req.UsageReport && len(arg1) == 1
 //@   at call URRSeq:
 //@     unfold sessOK(sess)
 //@     assert [mine]  recv == sess && live(s.lnode, lSeid) && sess == s.lnode.sess[lSeid-1]
